@@ -1,3 +1,4 @@
+import Heathcliff.Proofs.C06Y
 import Heathcliff.Gen.Forms
 import Heathcliff.Model.Evaluator
 import Heathcliff.Proofs.GenValid
@@ -67,5 +68,153 @@ theorem gen_ct_is_metadata_valid_for_refuses (allow pset missing : Bool) (chain 
 open HC in
 theorem gen_ct_is_buffer_valid_eq (dataLen cc sz n : Nat) (h1 : cc * sz < 2^64) (h : cc * sz * n < 2^64) :
     GenV.ct_is_buffer_valid dataLen cc sz n = .ok (decide (dataLen = cc * sz * n)) := HC.gx_ct_is_buffer_valid_eq dataLen cc sz n h1 h
+
+
+/-! ### validity (`ctValid`) is preserved by every modelled operation; refusals; exact relationship with canonicity; findings about the validity predicate (a BGV correction factor equal to t is accepted although it is not a unit)
+    (statements and hypothesis bundles: Heathcliff/Proofs/C06Y.lean; concrete witnesses in the NonVac world: Heathcliff/Proofs/C06YW.lean) -/
+
+/-- Y1: `ctValid` is exactly: size 0 or 2..16, all polynomials canonical, scale condition, correction factor in range -/
+theorem ctValid_iff : type_of% @HC.ctValid_iff := @HC.ctValid_iff
+
+/-- Y1, converse of `CtCanon.of_ctValid`: a canonical ciphertext with the right scale flags is valid -/
+theorem ctValid_of_CtCanon : type_of% @HC.ctValid_of_CtCanon := @HC.ctValid_of_CtCanon
+
+/-- Y1: for a NON-EMPTY ciphertext, validity is canonicity plus the scale condition (an iff: the correction-factor ranges of the two
+    predicates coincide, both accept the non-unit `cf = t` for BGV) -/
+theorem ctValid_iff_CtCanon : type_of% @HC.ctValid_iff_CtCanon := @HC.ctValid_iff_CtCanon
+
+/-- Y1, the only difference: the EMPTY ciphertext (size 0) is valid (with the right flags and correction factor) but not `CtCanon` -/
+theorem ctValid_empty : type_of% @HC.ctValid_empty := @HC.ctValid_empty
+
+/-- Y1: the polynomial / size / correction-factor part of validity does not depend on the scale flags -/
+theorem ctValid_flags : type_of% @HC.ctValid_flags := @HC.ctValid_flags
+
+/-- Y1 (finding about the predicate): for BGV, replacing the correction factor of a valid ciphertext by `t` (NOT a unit modulo t)
+    keeps it valid -/
+theorem ctValid_accepts_cf_t : type_of% @HC.ctValid_accepts_cf_t := @HC.ctValid_accepts_cf_t
+
+/-- Y2 `negate`: total on valid ciphertexts, result valid (same size, representation, correction factor) -/
+theorem ctNegate_valid : type_of% @HC.ctNegate_valid := @HC.ctNegate_valid
+
+theorem ctNegate_preserves_valid : type_of% @HC.ctNegate_preserves_valid := @HC.ctNegate_preserves_valid
+
+/-- Y2 `add` / `sub` (equal correction factors): total on valid operands in the same representation, result valid, size max -/
+theorem ctTranslate_valid : type_of% @HC.ctTranslate_valid := @HC.ctTranslate_valid
+
+theorem ctTranslate_preserves_valid : type_of% @HC.ctTranslate_preserves_valid := @HC.ctTranslate_preserves_valid
+
+/-- Y2 `add` / `sub` with balancing: total on valid operands in the same representation whose correction factors are equal or
+    both UNITS modulo t; the result is valid.  (For BFV / CKKS validity forces both factors to be 1, so the unit hypothesis is
+    vacuous there; `ht` is only used when the factors differ, which forces BGV.) -/
+theorem ctTranslateBalanced_valid : type_of% @HC.ctTranslateBalanced_valid := @HC.ctTranslateBalanced_valid
+
+/-- Y2, `.ok` form: whenever the balanced add / sub of valid operands succeeds and (in case the factors differ) the SECOND factor
+    is a unit, the result is valid (success already certifies that the first factor is a unit) -/
+theorem ctTranslateBalanced_preserves_valid : type_of% @HC.ctTranslateBalanced_preserves_valid := @HC.ctTranslateBalanced_preserves_valid
+
+/-- Y3 / Y4 refusal: an empty operand is refused by the dyadic product -/
+theorem ctMultiplyDyadic_refuse_empty : type_of% @HC.ctMultiplyDyadic_refuse_empty := @HC.ctMultiplyDyadic_refuse_empty
+
+/-- Y2 + Y4 `multiply` (CKKS product / dyadic step): on valid non-empty NTT-form operands the model ALWAYS succeeds, the result
+    has `n1 + n2 − 1` canonical polynomials, and it is valid IF AND ONLY IF `n1 + n2 − 1 ≤ 16`.  (The Rust code refuses the
+    oversize case through `Ciphertext::resize`; the model does not refuse, it returns an object that `ctValid` rejects.) -/
+theorem ctMultiplyDyadic_valid : type_of% @HC.ctMultiplyDyadic_valid := @HC.ctMultiplyDyadic_valid
+
+theorem ctMultiplyDyadic_preserves_valid : type_of% @HC.ctMultiplyDyadic_preserves_valid := @HC.ctMultiplyDyadic_preserves_valid
+
+/-- Y4: the size law of the product, from `.ok` alone (no validity needed) -/
+theorem ctMultiplyDyadic_size : type_of% @HC.ctMultiplyDyadic_size := @HC.ctMultiplyDyadic_size
+
+/-- Y2 `bgv_multiply`: on valid non-empty NTT-form BGV operands the model succeeds with correction factor `cf_a·cf_b mod t`;
+    the result is valid IF AND ONLY IF the size fits and that product is non-zero modulo t -/
+theorem bgvMultiply_valid_iff : type_of% @HC.bgvMultiply_valid_iff := @HC.bgvMultiply_valid_iff
+
+/-- Y2 `bgv_multiply`, unit correction factors: the result is valid -/
+theorem bgvMultiply_valid : type_of% @HC.bgvMultiply_valid := @HC.bgvMultiply_valid
+
+theorem bgvMultiply_preserves_valid : type_of% @HC.bgvMultiply_preserves_valid := @HC.bgvMultiply_preserves_valid
+
+/-- Y2 `multiply_plain_ntt`: total on valid NTT-form ciphertexts and canonical plaintexts, result valid -/
+theorem ctMultiplyPlainNtt_valid : type_of% @HC.ctMultiplyPlainNtt_valid := @HC.ctMultiplyPlainNtt_valid
+
+theorem ctMultiplyPlainNtt_preserves_valid : type_of% @HC.ctMultiplyPlainNtt_preserves_valid := @HC.ctMultiplyPlainNtt_preserves_valid
+
+/-- FINDING (validity predicate): `bgv_multiply` of two VALID ciphertexts (correction factors t = 5 and 2) succeeds and returns a
+    ciphertext with correction factor 0, which is NOT valid: validity is not preserved without the unit hypothesis -/
+theorem bgvMultiply_valid_needs_unit : type_of% @HC.bgvMultiply_valid_needs_unit := @HC.bgvMultiply_valid_needs_unit
+
+/-- FINDING: a VALID first operand (correction factor t) is REFUSED by the balanced add / sub ("accepted by any later operation"
+    fails for the non-unit factor that `ctValid` admits) -/
+theorem ctTranslateBalanced_refuses_valid : type_of% @HC.ctTranslateBalanced_refuses_valid := @HC.ctTranslateBalanced_refuses_valid
+
+/-- FINDING: with a VALID second operand of correction factor t the balanced add / sub SUCCEEDS with correction factor 0:
+    the result is not valid -/
+theorem ctTranslateBalanced_valid_needs_unit : type_of% @HC.ctTranslateBalanced_valid_needs_unit := @HC.ctTranslateBalanced_valid_needs_unit
+
+/-- Y2 `mod_switch_drop_to_next` (CKKS `mod_switch_to_next`, also the plain drop): total on valid ciphertexts at a level with ≥ 2
+    moduli (CKKS: NTT form), the result is valid at the next level -/
+theorem modSwitchDropNext_valid : type_of% @HC.modSwitchDropNext_valid := @HC.modSwitchDropNext_valid
+
+theorem modSwitchDropNext_preserves_valid : type_of% @HC.modSwitchDropNext_preserves_valid := @HC.modSwitchDropNext_preserves_valid
+
+/-- Y2 BFV `mod_switch_to_next`: total on valid coefficient-form ciphertexts, the result is valid at the next level -/
+theorem modSwitchScaleNext_bfv_valid : type_of% @HC.modSwitchScaleNext_bfv_valid := @HC.modSwitchScaleNext_bfv_valid
+
+/-- Y2 CKKS `rescale_to_next`: total on valid NTT-form ciphertexts, the result is valid at the next level (for the flags of the
+    new scale use `ctValid_flags`) -/
+theorem modSwitchScaleNext_ckks_valid : type_of% @HC.modSwitchScaleNext_ckks_valid := @HC.modSwitchScaleNext_ckks_valid
+
+/-- Y2 BGV `mod_switch_to_next`: total on valid NTT-form ciphertexts; the polynomials are canonical at the next level, the new
+    correction factor is `cf·q_L^{-1} mod t`, and the result is valid IF AND ONLY IF `cf ≠ t` (in particular for every unit) -/
+theorem modSwitchScaleNext_bgv_valid_iff : type_of% @HC.modSwitchScaleNext_bgv_valid_iff := @HC.modSwitchScaleNext_bgv_valid_iff
+
+theorem modSwitchScaleNext_bgv_valid : type_of% @HC.modSwitchScaleNext_bgv_valid := @HC.modSwitchScaleNext_bgv_valid
+
+/-- Y2, `.ok` form for all three schemes: whenever the scheme-specific switch of a valid ciphertext succeeds (and, for BGV, the
+    correction factor is not t), the result is valid at the next level.  `Level.WF` is needed for the NTT-form schemes only. -/
+theorem modSwitchScaleNext_preserves_valid : type_of% @HC.modSwitchScaleNext_preserves_valid := @HC.modSwitchScaleNext_preserves_valid
+
+/-- Y3: operands in different representations are never accepted by the balanced add / sub either (on the balancing path the
+    error is the first one met: a failed balancing, or the representation check after the scaling) -/
+theorem ctTranslateBalanced_refuse_ntt : type_of% @HC.ctTranslateBalanced_refuse_ntt := @HC.ctTranslateBalanced_refuse_ntt
+
+/-- Y3, summary of the representation / scheme / level / size refusals of the modelled operations (a ciphertext of the model has
+    no level tag: "operands at different levels" is not representable in the single-level signatures `op (l : Level) a b`;
+    representation and scheme mismatches are, and they are refused) -/
+theorem evaluator_refusals : type_of% @HC.evaluator_refusals := @HC.evaluator_refusals
+
+/-- Y3, what the model does NOT do: the operations of the model are the bodies AFTER `check_ciphertext`; they do not re-run the
+    validator.  E.g. `ctNegate` of a (canonical) ciphertext with the invalid correction factor 0 succeeds and returns an invalid
+    ciphertext — the refusal of invalid operands is `ctValid` itself (`Evaluator::check_ciphertext` panics iff it is false). -/
+theorem ctNegate_does_not_validate : type_of% @HC.ctNegate_does_not_validate := @HC.ctNegate_does_not_validate
+
+/-- Y2 `switch_key_inplace`: for inputs satisfying the bundle `c04t_KSInput` of C04T (for BGV also `c04t_BgvData`), a valid ciphertext
+    in the representation its scheme prescribes is switched to a VALID ciphertext of the same level (same size, representation,
+    correction factor).  The ciphertext level is the first `l.size` moduli of the key level (`c06y_KeyLevelOf`). -/
+theorem switchKey_valid : type_of% @HC.switchKey_valid := @HC.switchKey_valid
+
+theorem switchKey_preserves_valid : type_of% @HC.switchKey_preserves_valid := @HC.switchKey_preserves_valid
+
+/-- Y2 `relinearize` (any size 2..16, enough fuel): with a good key (`c06y_KeyOK`) for every power s^m, 2 ≤ m < size, a valid
+    ciphertext (in the prescribed representation if there is anything to switch) is relinearized to a VALID size-2 ciphertext -/
+theorem relinearize_valid : type_of% @HC.relinearize_valid := @HC.relinearize_valid
+
+/-- Y2 `apply_galois_inplace` (size 2, odd element ≤ 2N): the Galois images of the two polynomials are canonical, and the key switch of
+    (σ(c0), 0) with target σ(c1) returns a VALID ciphertext -/
+theorem applyGalois_valid : type_of% @HC.applyGalois_valid := @HC.applyGalois_valid
+
+/-- Y4 for `bfv_multiply`: whenever the model succeeds, both operands are non-empty and in coefficient form, the result has
+    `n1 + n2 − 1` polynomials, coefficient form and the correction factor of the first operand -/
+theorem bfvMultiply_shape_of_ok : type_of% @HC.bfvMultiply_shape_of_ok := @HC.bfvMultiply_shape_of_ok
+
+/-- Y2 for `bfv_multiply`, conditional on the data part: the result of a successful product of a valid first operand is valid iff the
+    size fits and its polynomials are canonical (size, scale and correction factor are handled here; canonicity of the output of
+    `fastbconvSk` is the part that is NOT proved) -/
+theorem bfvMultiply_valid_iff_canon : type_of% @HC.bfvMultiply_valid_iff_canon := @HC.bfvMultiply_valid_iff_canon
+
+/-- the product of two valid size-2 NTT-form ciphertexts (CKKS, or the dyadic step of BGV) is valid of size 3, is ACCEPTED by
+    `relinearize` with a good key for s², whose result is valid of size 2 and is in turn ACCEPTED by `modSwitchDropNext`, giving a
+    valid ciphertext at the next level — every intermediate object satisfies the hypotheses of the next operation -/
+theorem multiply_relinearize_drop_valid : type_of% @HC.multiply_relinearize_drop_valid := @HC.multiply_relinearize_drop_valid
 
 end HC.C06
